@@ -2,16 +2,17 @@
 # usage: tools/run_mutant.sh <patch> <Cxx> [more check ids...]   (set TESTS=1 to run the repo's own suite on the mutant too)
 # applies the patch to /repo, runs the quick checks, reverts /repo; prints one line per check
 patch="$(realpath "$1")"; shift
-cd /repo || exit 2
-if [ -n "$(git status --porcelain --untracked-files=no)" ]; then echo "/repo is dirty, refusing" >&2; exit 2; fi
+REPO="${REPO_ROOT:-/repo}"; VERIF="${VERIF_ROOT:-/verif}"
+cd "$REPO" || exit 2
+if [ -n "$(git status --porcelain --untracked-files=no)" ]; then echo "$REPO is dirty, refusing" >&2; exit 2; fi
 if ! git apply "$patch"; then echo "patch does not apply: $patch" >&2; exit 2; fi
-trap 'git -C /repo checkout -- . ' EXIT INT TERM
+trap 'git -C "$REPO" checkout -- . ' EXIT INT TERM
 if [ -n "$TESTS" ]; then
   r=$(cargo test --offline 2>&1 | grep -E "^test result" | head -1)
   echo "  repo tests: $r"
 fi
 for id in "$@"; do
-  out=$(/verif/check "$id" --tier quick --no-evidence 2>&1); code=$?
+  out=$("$VERIF/check" "$id" --tier quick --no-evidence 2>&1); code=$?
   v=$(echo "$out" | grep -c "^VIOLATION")
   echo "$(basename "$patch" .patch) $id exit=$code violations=$v $(echo "$out" | grep -A1 "^VIOLATION" | grep -v "^VIOLATION" | head -1 | cut -c1-160)"
 done
